@@ -9,6 +9,17 @@ open Pico.Compress
 0x3c and `offset / 16 + 60 ≤ 255` for offsets up to the 3120-byte window -/
 theorem table_ok : Gen.charTable.length = 60 ∧ tableLen = 60 ∧ maxHistLen = 3120 := by decide
 
+/-- the regenerated table IS the 60-entry literal table of the PICO-8 `:c:` format (index 0 is the escape marker), and
+the compatibility suffixes are the ones PICO-8 appends: a reordered or edited table breaks this obligation -/
+theorem table_is_format :
+    -- the 60 characters  # LF space 0-9 a-z ! # % ( ) { } [ ] < > + = / * : ; . , ~ _
+    Gen.charTable = [35, 10, 32, 48, 49, 50, 51, 52, 53, 54, 55, 56, 57, 97, 98, 99, 100, 101, 102, 103, 104, 105, 106, 107, 108, 109, 110, 111, 112, 113, 114, 115, 116, 117, 118, 119, 120, 121, 122, 33, 35, 37, 40, 41, 123, 125, 91, 93, 60, 62, 43, 61, 47, 42, 58, 59, 46, 44, 126, 95] ∧
+    -- "if(_update60)_update=function()_update60()_update60()end"
+    Gen.futureCode1 = [105, 102, 40, 95, 117, 112, 100, 97, 116, 101, 54, 48, 41, 95, 117, 112, 100, 97, 116, 101, 61, 102, 117, 110, 99, 116, 105, 111, 110, 40, 41, 95, 117, 112, 100, 97, 116, 101, 54, 48, 40, 41, 95, 117, 112, 100, 97, 116, 101, 54, 48, 40, 41, 101, 110, 100] ∧
+    -- "if(_update60)_update=function()_update60()_update_buttons()_update60()end"
+    Gen.futureCode2 = [105, 102, 40, 95, 117, 112, 100, 97, 116, 101, 54, 48, 41, 95, 117, 112, 100, 97, 116, 101, 61, 102, 117, 110, 99, 116, 105, 111, 110, 40, 41, 95, 117, 112, 100, 97, 116, 101, 54, 48, 40, 41, 95, 117, 112, 100, 97, 116, 101, 95, 98, 117, 116, 116, 111, 110, 115, 40, 41, 95, 117, 112, 100, 97, 116, 101, 54, 48, 40, 41, 101, 110, 100] := by
+  decide +kernel
+
 /-- a literal's table index decodes to that literal: `literalIndex b = i ≠ 0 → table[i] = b`, and `i < 60` -/
 theorem literal_index_ok (b : UInt8) :
     literalIndex b < 60 ∧ (literalIndex b ≠ 0 → Gen.charTable[literalIndex b]? = some b) := by
